@@ -2,7 +2,7 @@
    round-trip, injectivity, prefix-freeness; the single zero byte is the one string the code treats apart. *)
 From Coq Require Import ZArith List Bool Lia.
 From Coq.Strings Require Import Byte.
-From Verif Require Import Lib.Bytes Model.Wire Proofs.CompactSize Proofs.ScriptNum.
+From Verif Require Import Lib.Bytes Model.Wire Proofs.CompactSize Proofs.ScriptNum Proofs.ScriptCodec.
 Import ListNotations.
 Open Scope Z_scope.
 
@@ -84,4 +84,16 @@ Qed.
 Lemma cs_injective a b e : lib_cs_enc a = Some e -> lib_cs_enc b = Some e -> a = b.
 Proof.
   intros Ha Hb. destruct (cs_prefix_free a b e e [] [] Ha Hb eq_refl) as [H _]. exact H.
+Qed.
+
+(* scripts: two well-formed command lists with the same bytes are the same list *)
+Lemma script_serialize_injective cs1 cs2 s :
+  forallb wf_cmd cs1 = true -> forallb wf_cmd cs2 = true ->
+  lib_serialize cs1 = Some s -> lib_serialize cs2 = Some s -> cs1 = cs2.
+Proof.
+  intros W1 W2 S1 S2.
+  destruct (script_roundtrip_plain cs1 W1) as (s1 & E1 & P1).
+  destruct (script_roundtrip_plain cs2 W2) as (s2 & E2 & P2).
+  rewrite S1 in E1. rewrite S2 in E2. injection E1 as <-. injection E2 as <-.
+  rewrite P1 in P2. injection P2 as H. exact H.
 Qed.
